@@ -21,7 +21,7 @@ func (c18Stream) Name() string               { return "c18" }
 func (c18Stream) CaseTimeout() time.Duration { return 60 * time.Second }
 func (c18Stream) NoModel() bool              { return true }
 func (c18Stream) Rule() string {
-	return "TLS configurations {server authentication only, client certificate required and verified (the test directory's WithMTLS configuration)} x {static certificate list, certificate supplied by the GetCertificate callback} x offenders {plaintext LDAP request of each of the seven operations, random bytes, TCP connect without ClientHello, valid TLS without a client certificate, a certificate from a different CA, a foreign leaf with the genuine client certificate appended to its chain, no / foreign certificate without SNI, a truncated first TLS record followed by silence} (1..6 offenders in parallel), concurrently with two conforming clients issuing requests and a third that connects while the offenders (a silent one holds its connection for 1.2 s) are still there; oracle: no handler ever runs for an offender's message (offenders use reserved message ids) nor on an offender's connection at all, every conforming request is answered, and each offender's connection is ended without disturbing the others; non-trivial = at least one offender whose bytes would decode as LDAP, distinct by scenario"
+	return "TLS configurations {server authentication only, client certificate required and verified (the test directory's WithMTLS configuration)} x {static certificate list, certificate supplied by the GetCertificate callback, whole configuration supplied per client by GetConfigForClient} x offenders {plaintext LDAP request of each of the seven operations, random bytes, TCP connect without ClientHello, valid TLS without a client certificate, a certificate from a different CA, a foreign leaf with the genuine client certificate appended to its chain, no / foreign certificate without SNI, a truncated first TLS record followed by silence} (1..6 offenders in parallel), concurrently with two conforming clients issuing requests and a third that connects while the offenders (a silent one holds its connection for 1.2 s) are still there; oracle: no handler ever runs for an offender's message (offenders use reserved message ids) nor on an offender's connection at all, every conforming request is answered, and each offender's connection is ended without disturbing the others; non-trivial = at least one offender whose bytes would decode as LDAP, distinct by scenario"
 }
 
 var c18Offenders = []string{"plain-bind", "plain-search", "plain-modify", "plain-add", "plain-delete", "plain-extended", "plain-unbind", "random", "silent", "nocert", "othercert", "otherchain", "nocert-nosni", "othercert-nosni", "halfhello"}
@@ -38,7 +38,7 @@ func (c18Stream) Generate(rng *rand.Rand, n int, thorough bool) []Case {
 				offs[i] = "plain-bind" // without client-auth these two are conforming clients
 			}
 		}
-		cs = append(cs, Case{Line: fmt.Sprintf("c18 mtls=%d certvia=%s offenders=%s seed=%d", mtls, []string{"static", "static", "callback"}[rng.Intn(3)], strings.Join(offs, ","), rng.Intn(1<<30)), Kind: fmt.Sprintf("mtls%d", mtls)})
+		cs = append(cs, Case{Line: fmt.Sprintf("c18 mtls=%d certvia=%s offenders=%s seed=%d", mtls, []string{"static", "static", "callback", "perclient"}[rng.Intn(4)], strings.Join(offs, ","), rng.Intn(1<<30)), Kind: fmt.Sprintf("mtls%d", mtls)})
 	}
 	return cs
 }
@@ -57,6 +57,11 @@ func (c18Stream) Impl(c Case) string {
 		srvCfg = srvCfg.Clone()
 		srvCfg.Certificates = nil
 		srvCfg.GetCertificate = func(*tls.ClientHelloInfo) (*tls.Certificate, error) { return &cert, nil }
+	}
+	if p["certvia"] == "perclient" {
+		// ... or the whole configuration (certificates and the client-certificate policy) from GetConfigForClient
+		inner := srvCfg
+		srvCfg = &tls.Config{GetConfigForClient: func(*tls.ClientHelloInfo) (*tls.Config, error) { return inner, nil }}
 	}
 	var offenderHandled int32
 	var handled int64
